@@ -33,6 +33,7 @@ RULE = ("seeded generator over loader kind (points | deeponet shared trunk | dee
         "(quick) / <= 8 (thorough). A case is non-trivial when at least one complete pass was recorded and every row "
         "of it was decoded and judged; distinct = (kind, layout, divisibility class of each batch size, shuffle flags, "
         "drop_last, gcd class of the batch counts, norm/root/mode)")
+RULE += '; a quarter of the points / data-condition cases use data with a second batch axis (n, m, d); a third of the DeepONet cases change the batch sizes of the data set after the first passes'
 REQUIRED_REACH = ["PointsDataset.__getitem__", "PointsDataset.__len__", "PointsDataset.__init__",
                   "DeepONetDataset.__len__", "DeepONetDataset._slice_points", "DeepONetDataset.__getitem__",
                   "DeepONetDataset.__init__", "DeepONetDataset_Unique.__getitem__", "DeepONetDataset_Unique.__init__",
@@ -99,15 +100,24 @@ def gen_cases(seed, tier):
         c = _rand_points_cfg(rng)
         if len(c["dims"]) == 1 and rng.random() < 0.5:
             c["as_single"] = True           # a single Points object instead of a tuple
+        if len(cases) % 4 == 2:
+            c["m2"] = 1 + (len(cases) // 4) % 4      # data with a second batch axis (n, m, d): the loader batches the first one
         cases.append({"kind": "points", "cfg": c, "passes": int(rng.integers(1, 3)), "seed": int(rng.integers(0, 2**31))})
     for _ in range(260 if quick else 5000):
         cases.append({"kind": "deeponet", "cfg": _rand_don_cfg(rng), "passes": int(rng.integers(1, 3)),
                       "seed": int(rng.integers(0, 2**31))})
+        if len(cases) % 3 == 0:
+            # history: the batch sizes of the data set are changed after the first passes (the data sets recompute
+            # their length "for the case when the batch size changed"), then one more pass
+            k, cf = len(cases), cases[-1]["cfg"]
+            cases[-1]["rebatch"] = [1 + (7 * k) % cf["Nb"], 1 + (5 * k) % cf["Nt"]]
     for _ in range(70 if quick else 1200):
         c = _rand_points_cfg(rng)
         c["dims"] = [int(rng.integers(1, 4)), int(rng.integers(1, 3))]
         if c["drop_last"] and c["bs"] > c["N"]:
             c["drop_last"] = False          # a loader without batches has no condition value
+        if len(cases) % 4 == 1:
+            c["m2"] = 1 + (len(cases) // 4) % 4
         cases.append({"kind": "datacond", "cfg": c, "norm": [1, 2, 3, "inf"][int(rng.integers(0, 4))],
                       "root": float(rng.choice([1.0, 2.0, 3.0])), "full": bool(rng.random() < 0.7),
                       "constrain": bool(rng.random() < 0.3), "forwards": int(rng.integers(1, 4)),
@@ -201,8 +211,19 @@ def _points_data(cfg):
     for k, d in enumerate(cfg["dims"]):
         r = torch.arange(n, dtype=torch.float32).reshape(n, 1)
         t = 4.0 * H[k](r) + torch.arange(d, dtype=torch.float32).reshape(1, d)
+        if cfg.get("m2"):
+            t = t.unsqueeze(1).expand(n, cfg["m2"], d).clone()      # datum i fills the whole slice [i, :, :]
         comps.append(Points(t, Space({COMP_NAMES[k]: d})))
     return comps
+
+
+def _squeeze_m2(cfg, b):
+    """(m, m2, d) array of a two-axis data set -> (m, d); None if the slices of the second axis are not the datum's copies"""
+    if not cfg.get("m2"):
+        return b
+    if b.ndim != 3 or b.shape[1] != cfg["m2"] or (b.shape[0] and not np.all(b == b[:, :1, :])):
+        return None
+    return b[:, 0, :]
 
 
 def _decode_rows(t, k):
@@ -254,6 +275,15 @@ class _V:
         return v
 
 
+class _Rebatched:
+    """violations of a pass made after the batch sizes were changed carry the history in their mechanism"""
+    def __init__(self, V):
+        self.V = V
+
+    def add(self, kind, msg, **mech):
+        self.V.add(kind, msg + " [pass after dataset.branch_batch_size / trunk_batch_size were changed]", **dict(mech, history="rebatched"))
+
+
 def _cnt(res, key, n=1):
     res["counters"][key] = res["counters"].get(key, 0) + n
 
@@ -265,7 +295,7 @@ def _cnt(res, key, n=1):
 def _points_mech(cfg):
     return {"loader": "PointsDataLoader", "dataset": "PointsDataset", "shuffle": cfg["shuffle"],
             "drop_last": cfg["drop_last"], "bs_class": _divclass(cfg["N"], cfg["bs"]),
-            "components": len(cfg["dims"])}
+            "components": len(cfg["dims"]), "axes": 2 if cfg.get("m2") else 1}
 
 
 def _build_points_loader(cfg, seed):
@@ -297,6 +327,13 @@ def _judge_points_pass(cfg, batches, V, res):
             V.add("pairing", "batch %d has %d components, the data set has %d (%s)" % (bi, len(batch), ncomp, cfg),
                   what="component_count", **mech)
             continue
+        if cfg.get("m2"):
+            sq = [_squeeze_m2(cfg, b) for b in batch]
+            if any(b is None for b in sq):
+                V.add("pairing", "batch %d: component shapes %s of a data set with batch axes (%d, %d) (%s)"
+                      % (bi, [b.shape for b in batch], n, cfg["m2"], cfg), what="row_count", **mech)
+                continue
+            batch = sq
         m = batch[0].shape[0]
         if any(b.ndim != 2 or b.shape[0] != m or b.shape[1] != cfg["dims"][k] for k, b in enumerate(batch)):
             V.add("pairing", "batch %d: component shapes %s do not pair row by row (%s)"
@@ -358,7 +395,7 @@ def _run_points_cfg(cfg, seed, passes, V, res):
 
 def _points_cls(cfg):
     return "points/%s/sh%d/dl%d/c%d%s" % (_divclass(cfg["N"], cfg["bs"]), cfg["shuffle"], cfg["drop_last"],
-                                            len(cfg["dims"]), "s" if cfg.get("as_single") else "")
+                                            len(cfg["dims"]), ("s" if cfg.get("as_single") else "") + ("/ax2" if cfg.get("m2") else ""))
 
 
 # ---------------------------------------------------------------------------------------------
@@ -556,7 +593,7 @@ def _judge_don_pass(cfg, batches, V, res):
     return id_batches
 
 
-def _run_don_cfg(cfg, seed, passes, V, res):
+def _run_don_cfg(cfg, seed, passes, V, res, rebatch=None):
     try:
         loader = _build_don_loader(cfg, seed)
         rec = [_record_don_pass(loader) for _ in range(passes)]
@@ -567,6 +604,18 @@ def _run_don_cfg(cfg, seed, passes, V, res):
     idb = None
     for p in rec:
         idb = _judge_don_pass(cfg, p, V, res)
+    if rebatch and not res["viol"]:
+        cfg2 = dict(cfg, bb=int(rebatch[0]), bt=int(rebatch[1]))
+        try:
+            loader.dataset.branch_batch_size, loader.dataset.trunk_batch_size = cfg2["bb"], cfg2["bt"]
+            p2 = _record_don_pass(loader)
+        except Exception as e:
+            V.add("exception", "DeepONetDataLoader %s raised %r in the pass after the batch sizes were set to %s"
+                  % (cfg, e, rebatch), site=exc_site(e), stage="iterate_after_rebatch", **_don_mech(cfg2))
+            return None, None
+        V2 = _Rebatched(V)
+        _judge_don_pass(cfg2, p2, V2, res)
+        _cnt(res, "passes_after_batch_size_change")
     _cnt(res, "passes", len(rec))
     for nm, t, snap_ in getattr(loader, "_tpmon_user", []):
         _cnt(res, "user_tensors_compared")
@@ -636,10 +685,13 @@ def _run_datacond(c, V, res):
         def forward(self, points):
             x = self._fix_points_order(points).as_tensor
             seen.append(x.detach().clone().double().numpy())
-            u = 0.75 * x[:, :1] + 0.5 * torch.arange(dy, dtype=x.dtype).reshape(1, dy)
+            u = 0.75 * x[..., :1] + 0.5 * torch.arange(dy, dtype=x.dtype)
             return Points(u, self.output_space)
 
     def ref_abs(xrows):
+        xrows = _squeeze_m2(cfg, xrows)
+        if xrows is None:
+            return None, []
         ids = _decode_rows(xrows, 0)
         if any(r is None for r in ids):
             return None, ids
@@ -653,7 +705,7 @@ def _run_datacond(c, V, res):
 
     kw = {}
     if c["constrain"]:
-        kw["constrain_fn"] = lambda u, x: u + 0.25 * x[:, :1]
+        kw["constrain_fn"] = lambda u, x: u + 0.25 * x[..., :1]
     try:
         cond = DataCondition(Rec(), loader, norm=c["norm"], root=c["root"], use_full_dataset=c["full"], **kw)
     except Exception as e:
@@ -682,6 +734,11 @@ def _run_datacond(c, V, res):
                 V.add("condition_batches", "full-data-set forward %d (schedule %s) fed the model %d batches %s..., one pass "
                       "over the loader has %d batches %s... (%s)" % (k, "".join(sched), len(got_batches), got_batches[:3],
                                                                      len(idb), idb[:3], c), **mech)
+                return
+            if any(len(ids) == 0 for _, ids in refs):
+                V.add("condition_value", "the full-data-set forward evaluated the model on an empty batch (%d batches of sizes %s): "
+                      "the mean of the per-batch means is undefined; value %r (%s)"
+                      % (len(refs), [len(ids) for _, ids in refs][:12], val, c), **mech)
                 return
             want = _aggregate([a for a, _ in refs], c["norm"], c["root"])
             # the same aggregation over an independently recorded pass (every batch exactly once)
@@ -842,7 +899,7 @@ def run_case(c):
         _run_points_cfg(c["cfg"], c["seed"], c["passes"], V, res)
     elif kind == "deeponet":
         res["cls"] = _don_cls(c["cfg"])
-        _run_don_cfg(c["cfg"], c["seed"], c["passes"], V, res)
+        _run_don_cfg(c["cfg"], c["seed"], c["passes"], V, res, rebatch=c.get("rebatch"))
     elif kind == "datacond":
         res["cls"] = "cond/%s/n%s/r%g/full%d/c%d%s" % (_points_cls(c["cfg"]), c["norm"], c["root"], c["full"], c["constrain"],
                                                        _sched_cls(c))
